@@ -1,0 +1,115 @@
+//go:build verif
+
+// Contracts for the deductive verification in /verif (govc), topic ctser (property C16).
+// This file contains comments only; it is compiled only with -tags verif and declares nothing.
+// The encoders are a verbatim copy of /repo/ct/serialization.go and carry the same contracts.
+
+package ct
+
+// The preallocated error values are assigned by the package initialiser only.
+//@ global ErrInvalidVersion != nil && ErrNotEnoughBuffer != nil
+
+// ---------------------------------------------------------------- serialization.go (encoders)
+
+// digitally-signed struct (RFC 5246 4.7): hash(1) signature(1) opaque signature<0..2^16-1>.
+// dsBody: everything but the length prefix; dsPrefix: the 2-byte big-endian length.
+//@ pred dsLen(ds) = 1 + 1 + 2 + len(ds.Signature)
+//@ pred dsBody(out, ds) = out[0] == uint8(ds.HashAlgorithm) && out[1] == uint8(ds.SignatureAlgorithm) && forall(k, 0, len(ds.Signature), out[4+k] == old(ds.Signature[k]))
+//@ pred dsPrefix(out, ds) = int(out[2])<<8 | int(out[3]) == len(ds.Signature)
+
+// A signature longer than 65535 bytes cannot be represented and must be refused (defect_siglen:
+// the code stores uint16(len) and succeeds). With clause [siglen] the last two clauses
+// say: on success the output is exactly hash, algorithm, 2-byte length, signature.
+//@ func marshalDigitallySignedHere
+//@   requires len(ds.Signature) + 4 <= 1<<48
+//@   requires here != nil ==> sep(here, ds.Signature)
+//@   ensures  [siglen] result1 == nil ==> len(ds.Signature) <= 0xffff
+//@   ensures  here != nil && len(here) < dsLen(ds) ==> result1 == ErrNotEnoughBuffer
+//@   ensures  (here == nil || len(here) >= dsLen(ds)) && len(ds.Signature) <= 0xffff ==> result1 == nil
+//@   ensures  result1 != nil ==> result0 == nil
+//@   ensures  result1 == nil ==> len(result0) == dsLen(ds) && (here == nil ==> fresh(result0)) && (here != nil ==> same(result0, here[:dsLen(ds)]))
+//@   ensures  result1 == nil ==> dsBody(result0, ds)
+//@   ensures  result1 == nil && len(ds.Signature) <= 0xffff ==> dsPrefix(result0, ds)
+//@   modifies elems(here, 0, ite(here == nil, 0, dsLen(ds)))
+//@   terminates
+
+//@ func MarshalDigitallySigned
+//@   requires len(ds.Signature) + 4 <= 1<<48
+//@   ensures  [siglen] result1 == nil ==> len(ds.Signature) <= 0xffff
+//@   ensures  len(ds.Signature) <= 0xffff ==> result1 == nil
+//@   ensures  result1 != nil ==> result0 == nil
+//@   ensures  result1 == nil ==> len(result0) == dsLen(ds) && fresh(result0)
+//@   ensures  result1 == nil ==> dsBody(result0, ds)
+//@   ensures  result1 == nil && len(ds.Signature) <= 0xffff ==> dsPrefix(result0, ds)
+//@   terminates
+
+// TLS presentation language (RFC 5246 4.4): an unsigned integer of numBytes bytes, big-endian.
+// The bytes handed to the writer are exactly that representation, and only when the value fits.
+//@ pred fitsIn(v, n) = v >> uint(8*n) == 0
+//@ func writeUint
+//@   requires w != nil && 0 <= numBytes && numBytes <= 1<<48
+//@   loop 1 invariant 0 <= i && i <= numBytes && len(buf) == numBytes && fresh(buf)
+//@   loop 1 invariant value == old(value) >> uint(8*i)
+//@   loop 1 invariant forall(k, numBytes - i, numBytes, buf[k] == uint8(old(value) >> uint(8*(numBytes-1-k))))
+//@   at call Write assert fitsIn(old(value), numBytes) && len(arg1) == numBytes && forall(k, 0, numBytes, arg1[k] == uint8(old(value) >> uint(8*(numBytes-1-k))))
+//@   ensures  !fitsIn(value, numBytes) ==> result != nil
+//@   terminates
+
+// opaque value<0..2^(8*numLenBytes)-1> (RFC 5246 4.3): the length prefix (written by writeUint,
+// see there) followed by the bytes of value themselves; refused when the length does not fit.
+//@ func writeVarBytes
+//@   requires w != nil && 0 <= numLenBytes && numLenBytes <= 1<<48
+//@   at call Write assert same(arg1, value) && fitsIn(uint64(len(value)), numLenBytes)
+//@   ensures  !fitsIn(uint64(len(value)), numLenBytes) ==> result != nil
+//@   terminates
+
+
+// ---------------------------------------------------------------- serialization.go (decoders)
+//
+// The io.Reader is not modelled as a byte stream (no ghost state for readers in govc, and the
+// assumed contract of io.ReadFull says nothing about contents), so the decoders get safety
+// contracts: no panic, termination, frame, and the length bounds implied by the wire format.
+
+// numBytes big-endian bytes: the value is below 2^(8*numBytes). Nothing that existed before the
+// call changes (each byte is read into a fresh local). govc havocs the whole heap at the loop
+// head because binary.Read is called with a loop-variant argument, and ignores `loop modifies`;
+// the frame is therefore carried through the loop by one invariant per heap component
+// (unch_T: every T-typed location that existed at entry still holds its entry value).
+//@ pred unchB(p) = old(allocated(p)) ==> same(*p, old(*p))
+//@ func readUint
+//@   requires r != nil && numBytes <= 8
+//@   loop 1 invariant 0 <= i && fitsIn(l, i) && (numBytes <= 0 ==> l == 0)
+//@   loop 1 invariant forallv(p, *bool, unchB(p)) && forallv(p, *uint8, unchB(p)) && forallv(p, *uint16, unchB(p)) && forallv(p, *uint32, unchB(p)) && forallv(p, *uint64, unchB(p)) && forallv(p, *float64, unchB(p))
+//@   loop 1 invariant forallv(p, *error, unchB(p)) && forallv(p, **uint8, unchB(p)) && forallv(p, *[]uint8, unchB(p)) && forallv(p, *string, unchB(p)) && forallv(p, *fs.WalkDirFunc, unchB(p))
+//@   ensures  result1 != nil ==> result0 == 0
+//@   ensures  0 <= numBytes ==> fitsIn(result0, numBytes)
+//@   ensures  numBytes <= 0 ==> result0 == 0
+//@   terminates
+
+// The code accepts 1..8 length bytes; with 7 or 8 the announced length can exceed what make()
+// accepts (run-time panic), hence numLenBytes <= 6 here (all callers pass 2 or 3).
+//@ func readVarBytes
+//@   requires r != nil && numLenBytes <= 6
+//@   ensures  numLenBytes == 0 ==> result1 != nil
+//@   ensures  result1 != nil ==> result0 == nil
+//@   ensures  result1 == nil ==> result0 != nil && fresh(result0)
+//@   ensures  result1 == nil && numLenBytes >= 0 ==> fitsIn(uint64(len(result0)), numLenBytes)
+//@   terminates
+
+//@ func UnmarshalDigitallySigned
+//@   requires r != nil
+//@   ensures  result1 != nil ==> result0 == nil
+//@   ensures  result1 == nil ==> result0 != nil && fresh(result0) && result0.Signature != nil && fresh(result0.Signature) && len(result0.Signature) <= 0xffff
+//@   terminates
+
+//@ func deserializeSCTV1
+//@   requires r != nil && sct != nil
+//@   ensures  result == nil ==> sct.Extensions != nil && fresh(sct.Extensions) && len(sct.Extensions) <= 0xffff
+//@   ensures  result == nil ==> sct.Signature.Signature != nil && fresh(sct.Signature.Signature) && len(sct.Signature.Signature) <= 0xffff
+//@   modifies under(sct)
+//@   terminates
+
+//@ func DeserializeSCT
+//@   requires r != nil
+//@   ensures  result1 == nil ==> result0 != nil && fresh(result0) && len(result0.Extensions) <= 0xffff && len(result0.Signature.Signature) <= 0xffff
+//@   terminates
